@@ -17,6 +17,8 @@ import (
 	"fmt"
 	"os"
 	"strconv"
+	"sync"
+	"sync/atomic"
 	"time"
 
 	"github.com/gorilla/websocket"
@@ -314,6 +316,15 @@ func (g *genState) badFrame() FrameSpec {
 	return FrameSpec{Kind: "future", Off: 7, Fields: []rpcx.Field{genField(r, "bytes", 9999)}}
 }
 
+// early: one call whose reply the peer sends while serve is held between
+// the send and the recording of the call as pending.
+func (g *genState) early(kind string) {
+	cs := g.newCalls(1, kind)
+	k := cs[0].K
+	g.steps = append(g.steps, Step{Op: "early", Calls: cs, Frames: []FrameSpec{g.good(k)}})
+	g.answered = append(g.answered, k)
+}
+
 func (g *genState) frames(fs []FrameSpec) {
 	if len(fs) > 0 {
 		g.steps = append(g.steps, Step{Op: "frames", Frames: fs})
@@ -357,6 +368,14 @@ func genHistory(seed uint64, i int) Case {
 		g.calls(1, "hello")
 		c.Steps = g.steps
 		return c
+	case 4:
+		c.Stream = "early"
+		g.calls(2, "hello")
+		g.early("hello")
+		g.early("read")
+		g.answerAll(false, false)
+		c.Steps = g.steps
+		return c
 	case 1:
 		c.Stream = "sendfail"
 		g.calls(3, "hello")
@@ -385,7 +404,7 @@ func genHistory(seed uint64, i int) Case {
 		return c
 	}
 	streams := []string{"perm", "perm", "perm", "bad", "bad", "bad", "sendfail", "errbyte",
-		"shutdown", "hint", "peerclose", "cancel", "mixed", "mixed", "garbage"}
+		"shutdown", "hint", "peerclose", "cancel", "mixed", "mixed", "garbage", "early"}
 	c.Stream = streams[r.Intn(len(streams))]
 	rounds := 1 + r.Intn(3)
 	for round := 0; round < rounds && !g.dead; round++ {
@@ -510,6 +529,14 @@ func genHistory(seed uint64, i int) Case {
 				g.steps = append(g.steps, Step{Op: "cancel", K: k})
 			}
 			g.answerAll(r.Bool(), false)
+		case "early":
+			for j := 0; j < 1+r.Intn(3); j++ {
+				g.early("")
+				if len(g.pending) > 0 && r.Bool() {
+					g.frames([]FrameSpec{g.good(g.takePending(r.Intn(len(g.pending))))})
+				}
+			}
+			g.answerAll(r.Intn(3) == 0, false)
 		}
 	}
 	c.Steps = g.steps
@@ -865,6 +892,113 @@ func (rn *runner) track(data []byte) {
 	}
 }
 
+// doEarly forces the schedule "the reply is already at the reader while
+// serve has sent the request but not yet recorded the call": serve is held
+// at the schedule point after the send, the peer answers at once, the reader
+// is let run up to its fetch hand-off, then serve is released.
+func (rn *runner) doEarly(st Step) bool {
+	if len(st.Calls) != 1 || len(st.Frames) != 1 || rn.exited() {
+		return true
+	}
+	me := rn.cl.Transport()
+	sent := make(chan struct{}, 1)
+	atFetch := make(chan struct{}, 4)
+	release := make(chan struct{})
+	var once sync.Once
+	var taken atomic.Bool
+	sniproxy.VerifSetTrHook(func(point string, tr interface{}) {
+		if tr != me {
+			return
+		}
+		switch point {
+		case "serve:take":
+			taken.Store(true) // (only this step's call can be taken now)
+		case "serve:sent":
+			if !taken.Load() {
+				return // the tail of an earlier call's iteration
+			}
+			held := false
+			once.Do(func() { held = true })
+			if held {
+				sent <- struct{}{}
+				<-release
+			}
+		case "reader:fetch":
+			select {
+			case atFetch <- struct{}{}:
+			default:
+			}
+		}
+	})
+	defer sniproxy.VerifSetTrHook(nil)
+	cs := st.Calls[0]
+	rn.startCaller(cs)
+	deadline := time.After(waitBound)
+wait:
+	select {
+	case <-sent:
+	case r := <-rn.results:
+		rn.gotResult(r)
+		if r.k != cs.K {
+			goto wait // an earlier caller returning
+		}
+		// refused or failed before the send: nothing to force
+		cr := rn.callers[r.k]
+		ki := kinds[cr.spec.Kind]
+		if r.kind == "alreadyshutdown" {
+			rn.event(Event{E: "refused", K: r.k})
+		} else {
+			rn.event(Event{E: "call", K: r.k, Typ: ki.typ, Resp: ki.resp, Cap: cr.spec.Cap, SendOK: false})
+		}
+		close(release)
+		return true
+	case <-deadline:
+		rn.c.Hang = "early: serve did not reach the point after the send"
+		close(release)
+		return false
+	}
+	// the request is on the wire although serve has not recorded it
+	ok := true
+	select {
+	case data := <-rn.reqs:
+		id, typ, k, ok2 := rn.identify(data, map[int]bool{cs.K: true})
+		if !ok2 || k != cs.K {
+			rn.c.Hang = "early: unidentified request"
+			ok = false
+			break
+		}
+		rn.sawRequest(id, typ, k)
+		data2, _, sf := rn.resolve(st.Frames[0])
+		sf.AtEv = len(rn.c.Events)
+		rn.c.Frames = append(rn.c.Frames, sf)
+		rn.event(Event{E: "reply", Frame: rpcx.SegsOf(data2)})
+		rn.track(data2)
+		rn.pair.B.WriteMessage(websocket.BinaryMessage, data2)
+		select {
+		case <-atFetch: // the reader has the reply and is about to ask serve for the call
+			time.Sleep(2 * time.Millisecond)
+		case <-time.After(waitBound):
+			rn.c.Hang = "early: the reader did not get to the fetch"
+			ok = false
+		}
+	case <-time.After(waitBound):
+		rn.c.Hang = "early: request not seen"
+		ok = false
+	}
+	close(release)
+	if !ok {
+		return false
+	}
+	rn.syncN++
+	marker := fmt.Sprintf("sync-%d-%d", rn.c.I, rn.syncN)
+	rn.pair.B.WriteMessage(websocket.TextMessage, []byte(marker))
+	if rn.tap.WaitAny("receive text: "+marker, rn.cl.ServeDone(), waitBound) == "timeout" {
+		rn.c.Hang = "early: reader did not get to the marker"
+		return false
+	}
+	return true
+}
+
 func (rn *runner) doFrames(fs []FrameSpec) bool {
 	hint := false
 	for _, f := range fs {
@@ -950,6 +1084,8 @@ func (rn *runner) run() {
 			ok = rn.doCalls(st.Calls)
 		case "frames":
 			ok = rn.doFrames(st.Frames)
+		case "early":
+			ok = rn.doEarly(st)
 		case "break":
 			rn.cl.BreakWrites()
 		case "peerclose":
